@@ -752,6 +752,9 @@ structure SlotGood (cfg : Cfg) (s : Slot) : Prop where
   resort : incrSort cfg s = some s
   /-- no other index type is served from this pair -/
   exclusive : ∀ s', Hv.Beacon.phys cfg s' = s → s' = s
+  /-- the type-change branch removes a treasure that became void from every beacon, the key index
+      included: sound only while that cannot happen -/
+  voidSafe : cfg.typeChangeDetected = false ∨ cfg.setVoidClearsTyped = false
   /-- every update either re-files the record in this pair or leaves its sort attribute alone -/
   stable : ∀ (o : Rec) (rq : SetReq),
     refreshes cfg s (mergeRec cfg (some o) rq) = true ∨ attrEq s o (mergeRec cfg (some o) rq)
@@ -841,8 +844,12 @@ theorem PairOk.update {cfg : Cfg} {s : Slot} (hg : SlotGood cfg s) {store : List
       simp only [htc, if_true]
       have hnv : ((mergeRec cfg (some o) rq).ct != CT.void) = true := by
         simp only [Bool.and_eq_true, bne_iff_ne, ne_eq] at htc
+        have hcl : cfg.setVoidClearsTyped = false := by
+          rcases hg.voidSafe with h | h
+          · rw [h] at htc; exact absurd htc.1 (by simp)
+          · exact h
         have hne := htc.2
-        simp only [mergeRec] at hne ⊢
+        simp only [mergeRec, hcl, Bool.not_false, Bool.and_true] at hne ⊢
         by_cases hv : (rq.ct == CT.void) = true
         · simp [hv] at hne
         · simp only [hv, Bool.false_eq_true, if_false, bne_iff_ne, ne_eq]
